@@ -163,6 +163,14 @@ func Advance(d time.Duration) {
 	clock += int64(d)
 }
 
+// Stopwatch measures how much time an operation needed. Under the executor it
+// is virtual time (which passes only through Advance, or when every thread is
+// blocked and the earliest pending timer fires); natively it is real time.
+type Stopwatch struct{ real time.Time }
+
+func StartStopwatch() Stopwatch         { return Stopwatch{real: time.Now()} }
+func Elapsed(s Stopwatch) time.Duration { return time.Since(s.real) }
+
 // Observe appends to the observation trace compared by translator validation.
 func Observe(label string, vals ...int64) {
 	s := label
@@ -431,6 +439,14 @@ func Rendezvous(n int) {
 // channel is ready while the budget lasts and when it fires relative to the
 // other threads is a scheduling decision). Natively tickers are real.
 func Ticks(k int) {}
+
+// Settle lets goroutines started so far (e.g. by a constructor) reach their
+// parking point before the concurrent part of a harness begins. Only tickers
+// created after the latest Ticks call ever fire under the executor.
+func Settle() {
+	runtime.Gosched()
+	time.Sleep(time.Millisecond)
+}
 
 // WaitAll joins every goroutine started with Go.
 func WaitAll() {
